@@ -326,7 +326,32 @@ func (fr *Frame) invoke(site ssa.Instruction, c *ssa.CallCommon, recv *Val, args
 	iname := fr.eng.typeName(it)
 	key := iname + "." + c.Method.Name()
 	fr.oblige("P0", fr.ordName("P0/nil-iface"), app("distinct", iTag(fr.scalar(recv)), "0"))
+	// dynamic type known on this path: use the implementation
+	if tag := iTag(fr.scalar(recv)); isLiteral(tag) {
+		var id int
+		fmt.Sscanf(tag, "%d", &id)
+		if ct := fr.eng.tagType[id]; ct != nil {
+			if f := fr.eng.prog.LookupMethod(ct, c.Method.Pkg(), c.Method.Name()); f != nil {
+				rv := &Val{t: iVal(fr.scalar(recv)), sort: sInt, typ: ct}
+				return fr.callFunc(site, f, append([]*Val{rv}, args...), nil, c.Signature().Results())
+			}
+		}
+	}
 	if ct := fr.eng.cf.Contracts[key]; ct != nil {
+		if d, ok := ct.Attrs["delegate"]; ok {
+			// interface contract delegating to the package's own implementation
+			dt := fr.eng.parseType(d)
+			if dt == nil {
+				fr.stale("delegate "+key, fmt.Errorf("unknown type %s", d))
+			} else {
+				fr.oblige("call-requires", fr.ordName("call "+key)+"/dynamic-type", eq(iTag(fr.scalar(recv)), intLit(int64(fr.eng.typeTag(dt)))))
+				fr.vc.assumed["interface "+iname+" is implemented by "+d+" (user-supplied implementations are outside the contracts)"] = true
+				if f := fr.eng.prog.LookupMethod(dt, c.Method.Pkg(), c.Method.Name()); f != nil {
+					rv := &Val{t: iVal(fr.scalar(recv)), sort: sInt, typ: dt}
+					return fr.callFunc(site, f, append([]*Val{rv}, args...), nil, c.Signature().Results())
+				}
+			}
+		}
 		return fr.applyContract(ct, nil, key, args, c.Signature().Results(), recv)
 	}
 	pure := fr.eng.pureIfaceMethods[key]
